@@ -84,11 +84,27 @@ Definition wt_upd (w : nat) (f : watch -> watch * list N) (kont : list N -> code
 Definition wt_lock (jt w : nat) (n : N) (k : code) : code :=
   acquire_ctx CtxBlockOn jt w n (fun ok => if ok then k else Panic).
 
+(* the blocks that change the cell, as named functions (characterised in Proofs/TokWatchBase.v) *)
+(* `*lock = v; state.increment_version()`: returns the previous value *)
+Definition commit_fun (v : N) (x : watch) : watch * list N :=
+  (wt_set_state (wt_set_value x v) (wt_state x + 2)%N, [wt_value x]).
+(* Drop for Sender: ref_count_tx.fetch_sub(1); the last one does state.set_closed() (fetch_or CLOSED) *)
+Definition drop_tx_fun (slot : nat) (x : watch) : watch * list N :=
+  let x1 := wt_set_tx (wt_set_txc x (N.pred (wt_txc x))) slot false in
+  if N.eqb (wt_txc x) 1 then (wt_set_state x1 (if st_closed (wt_state x) then wt_state x else wt_state x + 1)%N, [1%N])
+  else (x1, [0%N]).
+(* Drop for Receiver: ref_count_rx.fetch_sub(1), the previous count is returned *)
+Definition drop_rx_fun (slot : nat) (x : watch) : watch * list N :=
+  (wt_set_rx (wt_set_rxc x (N.pred (wt_rxc x))) slot (false, 0%N), [wt_rxc x]).
+(* Sender::subscribe: the new Receiver starts at the current version *)
+Definition subscribe_fun (rslot : nat) (x : watch) : watch * list N :=
+  (wt_set_rx (wt_set_rxc x (wt_rxc x + 1)%N) rslot (true, st_version (wt_state x)), []).
+
 (* Sender::send_if_modified(|x| if modified { *x = v; true } else { false }): `old` receives the previous value *)
 Definition watch_send_modify (jt w : nat) (v : N) (modified : bool) (kont : bool -> N -> code) : code :=
   wt_lock jt w WATCH_MAX_READERS
     (if modified then
-       wt_upd w (fun x => (wt_set_state (wt_set_value x v) (wt_state x + 2)%N, [wt_value x]))
+       wt_upd w (commit_fun v)
          (fun a => sem_release_code w WATCH_MAX_READERS
                      (notify_waiters_code (wt_nrx w) (kont true (nth 0 a 0%N))))
      else
@@ -173,19 +189,17 @@ Definition watch_wait_for (ctx : pctx) (jt w slot : nat) (target : N) (kont : op
 
 (* Drop for Receiver: the last one wakes the tasks in Sender::closed() *)
 Definition watch_drop_rx (w slot : nat) (k : code) : code :=
-  wt_upd w (fun x => (wt_set_rx (wt_set_rxc x (N.pred (wt_rxc x))) slot (false, 0%N), [wt_rxc x]))
+  wt_upd w (drop_rx_fun slot)
     (fun a => match a with [1%N] => notify_waiters_code (wt_ntx w) k | _ => k end).
 
 (* Drop for Sender: the last one sets CLOSED and wakes the receivers *)
 Definition watch_drop_tx (w slot : nat) (k : code) : code :=
-  wt_upd w (fun x => let x1 := wt_set_tx (wt_set_txc x (N.pred (wt_txc x))) slot false in
-                     if N.eqb (wt_txc x) 1 then (wt_set_state x1 (if st_closed (wt_state x) then wt_state x else wt_state x + 1)%N, [1%N])
-                     else (x1, [0%N]))
+  wt_upd w (drop_tx_fun slot)
     (fun a => match a with [1%N] => notify_waiters_code (wt_nrx w) k | _ => k end).
 
 (* Sender::subscribe into the empty Receiver slot rslot *)
 Definition watch_subscribe (w rslot : nat) (k : code) : code :=
-  wt_upd w (fun x => (wt_set_rx (wt_set_rxc x (wt_rxc x + 1)%N) rslot (true, st_version (wt_state x)), [])) (fun _ => k).
+  wt_upd w (subscribe_fun rslot) (fun _ => k).
 
 (* Sender::closed().await *)
 Fixpoint closed_loop (fuel : nat) (ctx : pctx) (jt w : nat) (k : code) : code :=
